@@ -417,9 +417,11 @@ func ParsePacket(flowMessage ProtoProducerMessageIf, data []byte, config PacketL
 			return err
 		}
 
-		// Map custom fields
+		// Map custom fields of a layer that is really there (a parser that found its header cut short
+		// added no layer: there is nothing to extract from)
+		recognised := len(flowMessage.GetFlowMessage().LayerStack) > layersBefore
 		for _, key := range nextParser.ConfigKeyList {
-			if config != nil {
+			if config != nil && recognised {
 				layerIterator := config.Map(key)
 				for layerIterator != nil {
 					configLayer := layerIterator.Next()
@@ -440,7 +442,7 @@ func ParsePacket(flowMessage ProtoProducerMessageIf, data []byte, config PacketL
 
 		// one size per recognised layer: a parser that found its header cut short added no layer
 		fm := flowMessage.GetFlowMessage()
-		if len(fm.LayerStack) > layersBefore {
+		if recognised {
 			fm.LayerSize = append(fm.LayerSize, uint32(res.Size))
 		}
 
